@@ -2,6 +2,9 @@ import LoraVerif.Model.Mac
 import LoraVerif.Lemmas.ExceptLemmas
 import LoraVerif.Lemmas.Ghost
 import LoraVerif.Lemmas.MacWFStep
+import LoraVerif.Lemmas.GhostC
+import LoraVerif.Lemmas.RefineC
+import LoraVerif.Lemmas.HistoryCSafe
 /-!
 # C08 — MAC command handling is consistent and atomic: the device does what it answers
 
@@ -1437,6 +1440,252 @@ example : (run lcg (MacState.init (RegionState.init .EU868) 14 0, 1) demoHistory
 example : fit 15 [(5, [7]), (6, [255, 5])] = [(5, [7]), (6, [255, 5])] := by decide
 example : fit 4 [(5, [7]), (6, [255, 5]), (8, [])] = [(5, [7])] := by decide
 
+/-! ## extended histories: Class C receptions — in or out of the receive procedure — leave the queue alone
+
+`Model/HistoryC.lean`: frames heard on the RXC parameters between TX and RX1 and between RX1 and RX2 go
+to `handle_rxc` in the middle of the procedure.  The reference procedure (`upRefC`, `Lemmas/CycleC.lean`)
+decides on the ACTS of the procedure; the owed answers move along them (`ActsQ`): a Class C acceptance
+(`accC`) and `rx2_complete` (`tmo`) leave them alone, a frame accepted in a Class A window (`accA`)
+replaces them by the fitting prefix of the answers to ITS requests.  Since at most one `accA` occurs in
+a procedure and nothing but timeouts follows it, what the device owes afterwards are the answers of the
+last Class A acceptance — whatever was heard on the RXC parameters around it. -/
+
+/-- validity of an extended event for the history theorems: 16-bit wire counters, the application contract -/
+def evValidC (r : RegionId) (ev : EvC) : Prop := evOkC ev = true ∧ validEvC r ev = true
+
+theorem validEv_joinPlain {r : RegionId} {cc : Bool} {fault : Option FaultPos} {c1 c2 : List (RxView × Int)}
+    {rx1 rx2 : Option (RxView × Int)} (h : validEvC r (.joinC cc fault c1 rx1 c2 rx2) = true) :
+    validEv r (joinPlain fault rx1 rx2) = true := by
+  simp only [validEvC, Bool.and_eq_true] at h
+  simp only [joinPlain, validEv, Bool.and_eq_true]
+  exact ⟨h.1.1.2, h.2⟩
+
+theorem acceptCmds_region_id (pending : List Nat) (cfg : Config) (region : RegionState) (d : RxData) (snr : Int) (ctx : MacCtx)
+    (h : acceptCmds pending cfg region d snr false = .ok ctx) : ctx.region.id = region.id := by
+  obtain ⟨as1, as2, cfg1, rg1, m1, ha1, ha2, _⟩ := accept_answers pending cfg region d snr ctx h
+  have h1 := ha1.shape.2
+  simp only at h1
+  by_cases hport : d.fport = some 0
+  · rw [if_pos hport] at ha2
+    obtain ⟨m2, ha2⟩ := ha2
+    have h2 := ha2.shape.2
+    simp only at h2
+    rw [h2, h1]
+  · rw [if_neg hport] at ha2
+    rw [ha2.2.2, h1]
+
+/-- the owed answers along the acts of a receive procedure -/
+def ActsQ (r : RegionId) : List Act → List Ans → List Ans → Prop
+  | [], q, q' => q' = q
+  | .accC _ _ :: rest, q, q' => ActsQ r rest q q'
+  | .accA _ d snr :: rest, _, q' => ∃ as, frameShape r d snr as ∧ ActsQ r rest (fit 15 as) q'
+  | .tmo :: rest, q, q' => ActsQ r rest q q'
+
+/-- **one extended event, seen from the answer queue**: events of `Model/History.lean` as `AnsStep` says
+(a join procedure: the plain `joinOtaa` it amounts to); the uplink of a device with a session carries
+exactly the owed answers, and the device then owes what `ActsQ` makes of the sticky ones along the acts
+the REFERENCE decides on for this procedure. -/
+def AnsStepC (r : RegionId) (g : AG) (e : EvL) (out : OutC) (g' : AG) : Prop :=
+  match e.2 with
+  | .base ev => AnsStep r g ev out.out g'
+  | .joinC _ fault _ rx1 _ rx2 => AnsStep r g (joinPlain fault rx1 rx2) out.out g'
+  | .uplinkC cc _ _ conf fault c1 rx1 c2 rx2 =>
+    g'.1 = ghNextC g.1 e out ∧
+    (match g.1 with
+     | some last =>
+       ∃ so resp dl, out.out = .up so resp dl ∧ macField so.frame = wires g.2 ∧
+         ActsQ r (upRefC cc last conf e.1 fault c1 rx1 c2 rx2 so).acts (g.2.filter (fun a => isSticky a.1)) g'.2
+     | none => g'.2 = g.2)
+
+/-- **the queue follows the model along the acts** -/
+theorem acts_ans (r : RegionId) (acts : List Act) :
+    ∀ (m m' : MacState) (s : Session) (q : List Ans), m.st = .joined s → m.region.id = r → s.pending = wires q → Whole q →
+      Acts m acts m' → ∃ s' q', m'.st = .joined s' ∧ ActsQ r acts q q' ∧ s'.pending = wires q' ∧ Whole q' := by
+  induction acts with
+  | nil =>
+    intro m m' s q hst hid hp hw h
+    simp only [Acts] at h
+    subst h
+    exact ⟨s, q, hst, rfl, hp, hw⟩
+  | cons a rest ih =>
+    intro m m' s q hst hid hp hw h
+    cases a with
+    | accC N d =>
+      simp only [Acts] at h
+      obtain ⟨s0, hs0, _, h⟩ := h
+      rw [hst] at hs0; cases hs0
+      have hp1 : (acceptFinish s d N (ctxC m s)).2.1.pending = wires q := by rw [acceptFinish_session_eq]; exact hp
+      have hid1 : (acceptState m s d N (ctxC m s)).region.id = r := by rw [(acceptState_cfg m s d N (ctxC m s)).2]; exact hid
+      obtain ⟨s', q', hst', hA, hp', hw'⟩ := ih _ m' _ q (acceptState_st m s d N (ctxC m s)) hid1 hp1 hw h
+      exact ⟨s', q', hst', by simp only [ActsQ]; exact hA, hp', hw'⟩
+    | accA N d snr =>
+      simp only [Acts] at h
+      obtain ⟨s0, ctx, hs0, _, hc, h⟩ := h
+      rw [hst] at hs0; cases hs0
+      obtain ⟨as, hshape, hpc⟩ := accept_frameShape _ _ _ d snr ctx hc
+      rw [hid] at hshape
+      have hp1 : (acceptFinish s d N ctx).2.1.pending = wires (fit 15 as) := by rw [acceptFinish_session_eq]; exact hpc
+      have hid1 : (acceptState m s d N ctx).region.id = r := by
+        rw [(acceptState_cfg m s d N ctx).2, acceptCmds_region_id _ _ _ d snr ctx hc]; exact hid
+      obtain ⟨s', q', hst', hA, hp', hw'⟩ := ih _ m' _ (fit 15 as) (acceptState_st m s d N ctx) hid1 hp1
+        (whole_prefix (frameShape_whole hshape) (fit_prefix _ _)) h
+      exact ⟨s', q', hst', by simp only [ActsQ]; exact ⟨as, hshape, hA⟩, hp', hw'⟩
+    | tmo =>
+      simp only [Acts] at h
+      obtain ⟨s1, hs1, _, _, _, hp1, _, hreg⟩ := timeoutState_session m s hst
+      have hid1 : (timeoutState m).region.id = r := by rw [hreg]; exact hid
+      obtain ⟨s', q', hst', hA, hp', hw'⟩ := ih _ m' s1 q hs1 hid1 (by rw [hp1]; exact hp) hw h
+      exact ⟨s', q', hst', by simp only [ActsQ]; exact hA, hp', hw'⟩
+
+theorem stepC_ansRel {σ} (g : Rng σ) (r : RegionId) (m m' : MacState) (rs rs' : σ) (ev : EvC) (out : OutC) (ag : AG)
+    (hr : AnsRel r m ag) (hv : evValidC r ev) (h : stepC g (m, rs) ev = .ok ((m', rs'), out)) :
+    ∃ ag', AnsStepC r ag (rxcMp m, ev) out ag' ∧ AnsRel r m' ag' := by
+  cases ev with
+  | base e =>
+    obtain ⟨hs, _⟩ := stepC_base g _ _ e out h
+    exact step_ansRel g r m m' rs rs' e out.out ag hr hv hs
+  | joinC cc fault c1 rx1 c2 rx2 =>
+    obtain ⟨hs, _⟩ := stepC_joinC_plain g _ _ cc fault c1 rx1 c2 rx2 out h
+    exact step_ansRel g r m m' rs rs' _ out.out ag hr ⟨evOk_joinPlain hv.1, validEv_joinPlain hv.2⟩ hs
+  | uplinkC cc data fport conf fault c1 rx1 c2 rx2 =>
+    obtain ⟨gh, pend⟩ := ag
+    obtain ⟨hgh, hwf, hid, hpend⟩ := hr
+    simp only at hgh hpend
+    have hgh' := stepC_ghRel g m m' rs rs' _ out gh hgh hv.1 h
+    have hk : Keeps m m' := (stepC_safe g m rs _ hwf (by unfold ValidEvC; rw [hid]; exact hv.2)).elim h
+    have hid' : m'.region.id = r := by rw [hk.2.1, hid]
+    cases gh with
+    | none =>
+      obtain ⟨rfl, _, rfl⟩ := stepC_uplinkC_notJoined g m m' rs rs' hgh cc data fport conf fault c1 rx1 c2 rx2 out h
+      exact ⟨(none, pend), ⟨rfl, rfl⟩, hgh, hwf, hid, hpend⟩
+    | some last =>
+      obtain ⟨s, hst, rfl, hl⟩ := hgh
+      obtain ⟨so, m1, hsend, hfr, hst1, hcfg1, hid1', hout, hacts, _⟩ :=
+        stepC_uplinkC_joined g m m' rs rs' s hst hl cc data fport conf fault c1 rx1 c2 rx2 hv.1 out h
+      have hid1 : m1.region.id = r := by rw [hid1', hid]
+      obtain ⟨hp0, hw0⟩ := hpend s hst
+      have hmac : macField so.frame = wires pend := by
+        rw [hfr, ← hp0]; simp only [macField, descOf]; split <;> rfl
+      have hsent := sentSession_pending s conf pend hp0 hw0
+      have hwsent : Whole (pend.filter (fun a => isSticky a.1)) := whole_filter hw0 _
+      obtain ⟨s', q', hst', hA, hp', hw'⟩ := acts_ans r _ m1 m' _ _ hst1 hid1 hsent hwsent hacts
+      refine ⟨(ghNextC (some s.fcntDown) (rxcMp m, .uplinkC cc data fport conf fault c1 rx1 c2 rx2) out, q'),
+        ⟨rfl, so, _, _, by rw [hout], hmac, hA⟩, hgh', hk.1, hid', ?_⟩
+      intro s2 hs2
+      rw [hst'] at hs2
+      cases hs2
+      exact ⟨hp', hw'⟩
+
+/-- **C08 over every extended history** (Class C receptions inside the receive procedure included):
+EVERY uplink carries exactly the answers owed at that point, and the owed answers evolve as
+`AnsStepC` says: after a downlink accepted in a Class A window — one answer per handled request in
+request order, LinkADRReq blocks answered with identical copies, cut only at the 15-byte limit; sticky
+answers repeated in every uplink until the next such downlink, all others sent once; Class C
+receptions, between uplinks or in the middle of a receive procedure, do not touch the queue. -/
+theorem historyC_answers {σ} (g : Rng σ) (r : RegionId) (m : MacState) (rs : σ) (ag : AG) (hr : AnsRel r m ag)
+    (evs : List EvC) (hv : ∀ ev ∈ evs, evValidC r ev) (ms' : MacState × σ) (outs : List OutC)
+    (h : runC g (m, rs) evs = .ok (ms', outs)) : TraceRG (AnsStepC r) ag ((annotC g (m, rs) evs).zip outs) := by
+  have hc := runC_chain g (m, rs) ms' evs outs h
+  refine chainC_traceR g (AnsStepC r) (AnsRel r) (evValidC r)
+    (fun m s ev m' s' out gh hr hv hs => stepC_ansRel g r m m' s s' ev out gh hr hv hs)
+    (m, rs) ms' _ ag hr ?_ hc
+  intro x hx
+  have h1 := (List.of_mem_zip hx).1
+  unfold annotC at h1
+  exact hv _ (List.of_mem_zip h1).2
+
+/-- **C08 on the async front-end, for EVERY script, both classes** -/
+theorem asyncC_answers {σ} (g : Rng σ) (cfg : DevCfg) (r : RegionId) (d : DevRun) (rs : σ) (ag : AG)
+    (hr : AnsRel r d.m ag) (ops : List AsyncOp) (hv : ∀ op ∈ ops, op.allView viewOk = true ∧ op.valid r = true)
+    (obs : List OpObs) (d' : DevRun) (rs' : σ) (h : asyncOps g cfg d rs ops = .ok (obs, d', rs')) :
+    ∃ outs, TraceRG (AnsStepC r) ag ((annotC g (d.m, rs) (abstractSessionC cfg ops)).zip outs) ∧ AllRel ObsRel obs outs := by
+  obtain ⟨outs, hrun, hobs⟩ := asyncOps_runC g cfg d rs ops obs d' rs' h
+  refine ⟨outs, historyC_answers g r d.m rs ag hr _ ?_ _ outs hrun, hobs⟩
+  intro ev hev
+  obtain ⟨op, hop, rfl⟩ := List.mem_map.mp hev
+  exact ⟨abstractOp_evOkC cfg op (hv op hop).1, abstractOp_valid cfg r op (hv op hop).2⟩
+
+
+/-! ### effects of a downlink accepted in a Class A window of an EXTENDED procedure
+
+Class C acceptances before it (frames heard on the RXC parameters between TX and RX1, or between RX1
+and RX2) change neither the configuration nor the channel plan nor the queue the command handling
+starts from: `Effects` holds exactly as for the plain procedure. -/
+
+/-- the acts are Class C acceptances only -/
+def OnlyAccC (acts : List Act) : Prop := ∀ a ∈ acts, ∃ N d, a = .accC N d
+
+theorem acts_onlyAccC (acts : List Act) (ho : OnlyAccC acts) :
+    ∀ (m m' : MacState) (s : Session), m.st = .joined s → Acts m acts m' →
+      ∃ s', m'.st = .joined s' ∧ m'.cfg = m.cfg ∧ m'.region = m.region ∧ s'.pending = s.pending := by
+  induction acts with
+  | nil => intro m m' s hst h; simp only [Acts] at h; subst h; exact ⟨s, hst, rfl, rfl, rfl⟩
+  | cons a rest ih =>
+    intro m m' s hst h
+    obtain ⟨N, d, rfl⟩ := ho a List.mem_cons_self
+    simp only [Acts] at h
+    obtain ⟨s0, hs0, _, h⟩ := h
+    rw [hst] at hs0; cases hs0
+    obtain ⟨s', hst', hc, hr, hp⟩ := ih (fun a ha => ho a (List.mem_cons_of_mem _ ha)) _ m' _ (acceptState_st m s d N (ctxC m s)) h
+    refine ⟨s', hst', ?_, ?_, ?_⟩
+    · rw [hc, (acceptState_cfg m s d N (ctxC m s)).1]; rfl
+    · rw [hr, (acceptState_cfg m s d N (ctxC m s)).2]; rfl
+    · rw [hp, acceptFinish_session_eq]; rfl
+
+/-- **what a downlink accepted in a Class A window of an extended receive procedure did to the
+device** (`Effects`, as for the plain procedure), whatever was accepted on the RXC parameters before
+it: the reference's acts for the procedure are Class C acceptances followed by the Class A acceptance
+of `d` that ends it. -/
+theorem stepC_effects {σ} (g : Rng σ) (m m' : MacState) (rs rs' : σ) (s : Session) (hst : m.st = .joined s)
+    (hl : LastOk s.fcntDown) (cc : Bool) (data : List Nat) (fport : Nat) (conf : Bool) (fault : Option FaultPos)
+    (c1 : List (RxView × Int)) (rx1 : Option (RxView × Int)) (c2 : List (RxView × Int)) (rx2 : Option (RxView × Int))
+    (hv : evOkC (.uplinkC cc data fport conf fault c1 rx1 c2 rx2) = true) (out : OutC)
+    (h : stepC g (m, rs) (.uplinkC cc data fport conf fault c1 rx1 c2 rx2) = .ok ((m', rs'), out))
+    (pre : List Act) (N : Nat) (d : RxData) (snr : Int) (hpre : OnlyAccC pre)
+    (hacc : ∀ so m1 rs1, macSend g m data fport conf rs = .ok (some so, m1, rs1) →
+      (upRefC cc s.fcntDown conf (rxcMp m) fault c1 rx1 c2 rx2 so).acts = pre ++ [.accA N d snr]) :
+    Effects g m rs data fport conf d snr m' := by
+  obtain ⟨so, m1, hsend, _, hst1, hcfg1, _, _, hacts, _⟩ :=
+    stepC_uplinkC_joined g m m' rs rs' s hst hl cc data fport conf fault c1 rx1 c2 rx2 hv out h
+  rw [hacc so m1 rs' hsend] at hacts
+  obtain ⟨m2, h1, h2⟩ := hacts.split
+  obtain ⟨s2, hst2, hc2, hr2, hp2⟩ := acts_onlyAccC pre hpre m1 m2 _ hst1 h1
+  simp only [Acts] at h2
+  obtain ⟨s3, ctx, hs3, _, hc, rfl⟩ := h2
+  rw [hst2] at hs3; cases hs3
+  obtain ⟨as1, as2, cfg1, rg1, mk, ha1, ha2, hp⟩ := accept_answers _ _ _ d snr ctx hc
+  rw [hc2, hcfg1, hr2] at ha1
+  obtain ⟨hcfg', hreg'⟩ := acceptState_cfg m2 s2 d N ctx
+  refine ⟨so, m1, rs', as1, as2, cfg1, rg1, mk, _, hsend, hcfg1, ha1, ?_, acceptState_st _ _ d N ctx, by rw [acceptFinish_session_eq]; exact hp⟩
+  rw [hcfg', hreg']
+  exact ha2
+
+/-! non-vacuity: a Class C device; RXParamSetupReq + DevStatusReq accepted in RX1 AFTER a Class C frame
+was accepted between TX and RX1; in the next procedure another Class C frame is accepted between the
+windows: the sticky RXParamSetupAns is still owed after it -/
+def dlC (w : Nat) : RxView × Int :=
+  (.data { len := 14, confirmed := false, fcnt16 := w, micFcnt := some w, fopts := [], fport := some 1, payload := [w] }, 5)
+
+def demoHistoryC : List EvC :=
+  [ .base (.joinAbp 7 1 2),
+    .uplinkC true [1] 1 false none [dlC 1] (dl 2 [0x05, 0x23, 0xD2, 0xAD, 0x84, 0x06]) [] none,
+    .uplinkC true [2] 1 false none [] none [dlC 3] none,
+    .uplinkC true [3] 1 false none [] none [] none ]
+
+example : ∀ ev ∈ demoHistoryC, evOkC ev = true ∧ validEvC .EU868 ev = true := by decide
+/-- the hypothesis of `stepC_effects` on the second event of `demoHistoryC`: a Class C acceptance, then
+the Class A acceptance of the frame with the commands -/
+example :
+    (match macSend lcg (macJoinAbp (MacState.init (RegionState.init .EU868) 14 0) 7 1 2) [1] 1 false 1 with
+     | .ok (some so, _, _) =>
+       decide ((upRefC true none false (rxcMp (macJoinAbp (MacState.init (RegionState.init .EU868) 14 0) 7 1 2)) none [dlC 1]
+         (dl 2 [0x05, 0x23, 0xD2, 0xAD, 0x84, 0x06]) [] none so).acts.map (fun a => match a with | .accC N _ => (0, N) | .accA N _ _ => (1, N) | .tmo => (2, 0))
+         = [(0, 1), (1, 2)])
+     | _ => false) = true := by decide +kernel
+example : (runC lcg (MacState.init (RegionState.init .EU868) 14 0, 1) demoHistoryC).toOption.map
+      (fun r => (macFields (r.2.map (·.out)), r.2.map (fun o => o.heard.length)))
+    = some ([[], [0x05, 7, 0x06, 255, 5], [0x05, 7]], [0, 2, 1, 0]) := by decide +kernel
+
 end C08
 
 #print axioms C08.push_length_le
@@ -1463,3 +1712,7 @@ end C08
 #print axioms C08.history_answers_init
 #print axioms C08.step_effects
 #print axioms C08.history_effects
+#print axioms C08.stepC_ansRel
+#print axioms C08.historyC_answers
+#print axioms C08.asyncC_answers
+#print axioms C08.stepC_effects
